@@ -7,6 +7,7 @@ void listComponentIds__rec(ref component, vset_s *idList)
 LIST_COMPONENT_CONTRACT(component == CG_ && g_sub);
 static void init_ids(void)
 {
+    havoc_heap(); /* every object field the lowered code reads - also one a change starts to read - is arbitrary */
     for (unsigned k = 0; k < HEAP_N; ++k) {
         g_id[k] = nondet_uint64_t();
         g_enc[k] = nondet_uint64_t();
